@@ -17,8 +17,8 @@ import numpy as np
 from vlib import *
 
 RULE = ('correspondence cases: type in UC/N/CD/UD/P/NB x (dyadic | general float) parameters x round_to_int on/off x seed, n draws '
-        'replayed against a parallel RandomState; Markov chains (alpha,beta in dyadics and general floats, a third of them with alpha or beta equal to 0 or 1 (int or float), both start states; every transition of declared probability 0 or 1 is checked individually); '
-        'deterministic demand lists / explicit disruption lists of length 0..7 (scalar too) replayed for periods None,0..3*len+2; '
+        'replayed against a parallel RandomState; custom discrete (CD) supports are distinct integers in 0..24 or, in 40% of the correspondence cases, half of the CD statistical cases and a separate reported-mean/sd/cdf stream, FRACTIONAL units (multiples of 1/2, 1/4, 1/8, 1/10, 1/20 inside [0,1], [0,3] or [0,24], at least one non-integer; with round_to_int the declared law is that of the half-to-even rounded values); cdf of CD sources is queried at every support point, the floats adjacent to it and the midpoints between neighbours; lead-time cases use integer CD supports only; Markov chains (alpha,beta in dyadics and general floats, a third of them with alpha or beta equal to 0 or 1 (int or float), both start states; every transition of declared probability 0 or 1 is checked individually); '
+        'deterministic demand lists / explicit disruption lists of length 0..7 (scalar too) replayed for periods None,0..3*len+2, the values held in a python list (half of the cases), a tuple or a numpy array (numpy scalar for a third of the scalars), each period asked of a fresh object and of one object queried for all periods in turn; the result must be ONE value (not a sequence); explicit steady-state cases use the same containers; '
         'oracle cases: per type parameter sets (reported mean/sd/cdf), lead times L=1..Lmax (L-fold convolution), probability '
         'vectors (short decimal / 1/k up to k=100 / normalised weights of length 20-100 / scipy pmf tables / sums perturbed by <= 5e-10) summing to one within 1e-9, or clearly not; SEQUENCES of 2-5 lead-time + mean/sd/cdf queries in one process that reuse demand_list / lo,hi / n,p / mean with other parameters changed and the same L, on fresh objects or one object mutated in place; statistical cases: n samples per parameter set; Markov chains with alpha,beta in [0.05,0.95] (n steps) and boundary chains with alpha or beta in {0,1} (n/5 steps: absorbing, never disrupted, one-period disruptions, alternating). '
         'non-trivial = >=2 distinct sample values (random types), list longer than 1 replayed past its end (lists), both states '
@@ -38,10 +38,23 @@ def _z():
 # ------------------------------------------------------------------------------------------------
 # implementation adapters
 
+def in_container(lst, container):
+    """the same sequence of per-period values held in another kind of container ('list' leaves python lists / scalars as they are):
+    a tuple, a numpy array, or - for a scalar - a numpy scalar.  Cases store plain lists; the container is applied here."""
+    if container in (None, 'list', 'scalar'): return lst
+    if isinstance(lst, list):
+        if container == 'tuple': return tuple(lst)
+        if container == 'ndarray': return np.array(lst, dtype=bool if all(isinstance(x, bool) for x in lst) and lst else float)
+        raise ValueError(container)
+    if container == 'npscalar': return np.bool_(lst) if isinstance(lst, bool) else np.float64(lst)
+    raise ValueError(container)
+
+
 def mk_ds(c):
     from stockpyl.demand_source import DemandSource
     ds = DemandSource(type=c['type'], round_to_int=c.get('round'))
     for k, v in c['params'].items():
+        if c['type'] == 'D' and k == 'demand_list': v = in_container(v, c.get('container'))
         setattr(ds, k, v)
     return ds
 
@@ -51,7 +64,7 @@ def mk_dp(c):
     if c['ptype'] == 'M':
         return DisruptionProcess(random_process_type='M', disruption_probability=c['alpha'], recovery_probability=c['beta'],
                                  disrupted=c.get('d0', False))
-    return DisruptionProcess(random_process_type='E', disruption_state_list=c['states'])
+    return DisruptionProcess(random_process_type='E', disruption_state_list=in_container(c['states'], c.get('container')))
 
 
 def draw_variates(c, n):
@@ -167,6 +180,8 @@ class Decl:
             m = sum(Fr(x) * F(q) for x, q in zip(xs, ps)); m2 = sum(Fr(x) ** 2 * F(q) for x, q in zip(xs, ps))
             s = sum(F(q) for q in ps); m /= s; m2 /= s
             self.mean = float(m); self.var = float(m2 - m * m)
+            # law of int(np.round(value)) (round half to even); identical to the declared law when the support is integer
+            self.rounded = [(round_half_even(F(x)), F(q) / s) for x, q in zip(xs, ps)]
         self.sd = math.sqrt(self.var)
         self._tab = {}
 
@@ -204,6 +219,7 @@ class Decl:
     def sample_cdf(self, x, left=False):
         if self.round:
             k = math.floor(x) if not left else math.ceil(x) - 1
+            if self.t == 'CD': return float(sum((q for v, q in self.rounded if v <= k), Fr(0)))
             if k < 0 and self.t == 'N': return 0.0
             return self.cdf(k + 0.5) if self.t in ('N', 'UC') else self.cdf(k)
         if self.t == 'N':
@@ -238,6 +254,7 @@ class Decl:
             if not float(xv).is_integer(): return False
             if t == 'N': return xv >= 0
             if t == 'UC': return math.floor(p['lo']) <= xv <= math.ceil(p['hi'])
+            if t == 'CD': return any(xv == v and q > 0 for v, q in self.rounded)
         if t == 'N': return xv >= 0
         if t in ('P', 'NB'): return xv >= 0 and xv.is_integer()
         if t == 'UD': return xv.is_integer() and int(p['lo']) <= xv <= int(p['hi'])
@@ -253,7 +270,19 @@ def _dy(rng, lo, hi, den):
     return rng.randint(int(lo * den), int(hi * den)) / den
 
 
-def gen_params(rng, t, exact):
+def gen_frac_support(rng, k):
+    """k distinct support points of a custom discrete demand measured in FRACTIONAL units (half / quarter / eighth / tenth /
+    twentieth units), at least one of them not an integer: inside [0,1], within a few units, or over the range of the integer supports"""
+    while True:
+        den = rng.choice([2, 2, 4, 8, 10, 20]); top = rng.choice([1, 3, 24])
+        pool = range(0, top * den + 1)
+        xs = [j / den for j in rng.sample(pool, min(k, len(pool)))]
+        if any(not float(x).is_integer() for x in xs): return xs
+
+
+def gen_params(rng, t, exact, frac=False):
+    """frac (CD only): support points that are not integers (valid for generate_demand / mean / sd / cdf; the module's lead-time
+    convolution of a custom discrete demand is defined on integer supports only, so lead-time cases never use it)"""
     if t == 'UC':
         if exact:
             if rng.random() < 0.5: return dict(lo=0, hi=2 ** rng.randint(0, 5))
@@ -265,6 +294,7 @@ def gen_params(rng, t, exact):
     if t == 'CD':
         k = rng.randint(1, 6)
         xs = rng.sample(range(0, 25), k)
+        if frac: xs = gen_frac_support(rng, k); k = len(xs)
         if rng.random() < 0.5: xs.sort()
         if exact:
             cuts = sorted(rng.randint(0, 64) for _ in range(k - 1)); w = [b - a for a, b in zip([0] + cuts, cuts + [64])]
@@ -328,7 +358,7 @@ def corr_random(chk, ncase, ndraw, do_model=True):
     for i in range(ncase):
         t = ['UC', 'N', 'CD', 'UD', 'P', 'NB'][i % 6] if i < 6 * (ncase // 8) else rng.choice(['UC', 'N', 'CD'])
         exact = rng.random() < 0.5
-        c = dict(kind='corr', type=t, params=gen_params(rng, t, exact), round=rng.choice([None, False, True, True]) if t in ('UC', 'N') else rng.choice([None, True]),
+        c = dict(kind='corr', type=t, params=gen_params(rng, t, exact, frac=(t == 'CD' and rng.random() < 0.4)), round=rng.choice([None, False, True, True]) if t in ('UC', 'N') else rng.choice([None, True]),
                  seed=seed_of(rng), n=ndraw, exact=exact)
         cases.append(c)
     impl = []; vs = []
@@ -347,6 +377,7 @@ def corr_random(chk, ncase, ndraw, do_model=True):
     model = coq_eval_sharded('c16r', 'Alg.Gen', '', exprs, shard=60) if do_model else [None] * len(cases)
     st = chk.extra.setdefault('correspondence', {'draws_bit_for_bit_float': 0, 'draws_exact_vs_coq': 0, 'draws_within_4ulp_vs_coq': 0, 'near_tie_skipped': 0})
     for c, r, v, m in zip(cases, impl, vs, model):
+        if c['type'] == 'CD': chk.count('corr CD support=%s' % ('integer' if all(float(x).is_integer() for x in c['params']['demand_list']) else 'fractional'))
         chk.count('corr type=%s' % c['type']); chk.count('corr round=%s' % c['round']); chk.count('corr regime=%s' % ('dyadic' if c['exact'] else 'float'))
         if isinstance(r, tuple):
             chk.fail('generate_demand|%s|raises-%s' % (c['type'], r[1]), 'valid parameters raise %s: %s' % (r[1], r[2]), c)
@@ -460,6 +491,25 @@ def corr_markov(chk, ncase, nstep, do_model=True):
         chk.case(c, len(set(st)) == 2, key='markov|%r|%r|%r|%d' % (c['alpha'], c['beta'], c['d0'], c['seed']))
 
 
+def gen_container(rng, lst):
+    """kind of container that holds the per-period values: python list (half of the cases), tuple, numpy array; numpy scalar for scalars"""
+    if isinstance(lst, list): return rng.choice(['list', 'list', 'tuple', 'ndarray'])
+    return rng.choice(['scalar', 'scalar', 'npscalar'])
+
+
+def is_single(x):
+    """x is ONE value (a demand / a truth value), not a sequence of them"""
+    return not isinstance(x, (list, tuple, dict, set, str)) and x is not None and np.ndim(x) == 0
+
+
+def same_value(got, want):
+    if not is_single(got): return False
+    try:
+        return bool(got == want)
+    except Exception:
+        return False
+
+
 def list_oracle(lst, period):
     """independent statement of cyclic replay"""
     if not isinstance(lst, list): return ('ok', lst)
@@ -478,6 +528,7 @@ def corr_lists(chk, ncase, do_model=True):
         else:
             lst = [rng.random() < 0.4 for _ in range(n)] if n is not None else (rng.random() < 0.5)
             c = dict(kind='list', type='E', ptype='E', states=lst)
+        c['container'] = gen_container(rng, lst)
         L = len(lst) if isinstance(lst, list) else 1
         c['periods'] = [None] + list(range(0, 3 * L + 3))
         cases.append(c)
@@ -497,7 +548,14 @@ def corr_lists(chk, ncase, do_model=True):
 def check_list_case(chk, c, m=None):
     lst = c['params']['demand_list'] if c['type'] == 'D' else c['states']
     chk.count('list type=%s len=%s' % (c['type'], len(lst) if isinstance(lst, list) else 'scalar'))
+    chk.count('list type=%s container=%s' % (c['type'], c.get('container') or 'list'))
     wrapped = False
+    site = 'generate_demand|D' if c['type'] == 'D' else 'update_disruption_state|E'
+    if c.get('container') not in (None, 'list', 'scalar'): site += '|' + c['container']
+    try:
+        keep = mk_ds(c) if c['type'] == 'D' else mk_dp(c)          # one object queried for all periods in turn, next to a fresh one per period
+    except Exception:
+        keep = None
     for j, p in enumerate(c['periods']):
         try:
             if c['type'] == 'D':
@@ -506,26 +564,37 @@ def check_list_case(chk, c, m=None):
                 dp = mk_dp(c); dp.update_disruption_state(p); got = ('ok', dp.disrupted)
         except Exception as e:
             got = ('err', exc_kind(e))
+        try:
+            if keep is None: got2 = got
+            elif c['type'] == 'D': got2 = ('ok', keep.generate_demand(p))
+            else: keep.update_disruption_state(p); got2 = ('ok', keep.disrupted)
+        except Exception as e:
+            got2 = ('err', exc_kind(e))
+        if got2[0] != got[0] or (got[0] == 'ok' and is_single(got[1]) and not same_value(got2[1], got[1])):
+            chk.fail(site + '|depends-on-earlier-calls', 'period %r: a fresh object gives %r, the object already queried for periods %r gives %r (list %r)'
+                     % (p, got, c['periods'][:j], got2, lst), c)
         want = list_oracle(lst, p)
         if want[0] == 'ok' and c['type'] == 'D' and c.get('round'):
             want = ('ok', round_half_even(F(want[1])))
-        site = 'generate_demand|D' if c['type'] == 'D' else 'update_disruption_state|E'
         if want[0] == 'err':
             if got[0] != 'err':
                 chk.fail(site + '|empty-list-accepted', 'empty list, period %r: returned %r' % (p, got[1]), c)
         elif got[0] == 'err':
             chk.fail(site + '|raises-%s' % got[1], 'period %r raises %s' % (p, got[1]), c)
-        elif not (got[1] == want[1]) or (c['type'] == 'D' and c.get('round') and not isinstance(got[1], int)):
-            chk.fail(site + '|not-cyclic-replay', 'period %r: returned %r, list[period %% len] is %r (list %r)' % (p, got[1], want[1], lst), c)
+        elif not is_single(got[1]):
+            chk.fail(site + '|not-a-single-value', 'period %r: returned %s %r instead of one value, list[period %% len] is %r (values %r held in a %s)'
+                     % (p, type(got[1]).__name__, got[1], want[1], lst, c.get('container') or 'list'), c)
+        elif not same_value(got[1], want[1]) or (c['type'] == 'D' and c.get('round') and not isinstance(got[1], int)):
+            chk.fail(site + '|not-cyclic-replay', 'period %r: returned %r, list[period %% len] is %r (values %r held in a %s)' % (p, got[1], want[1], lst, c.get('container') or 'list'), c)
         if isinstance(lst, list) and p is not None and len(lst) > 1 and p >= len(lst): wrapped = True
         if m is not None:
             mv = m[j]
-            ok = (mv is None and got[0] == 'err') or (mv is not None and got[0] == 'ok' and
+            ok = (mv is None and got[0] == 'err') or (mv is not None and got[0] == 'ok' and is_single(got[1]) and
                                                        ((qv(mv[1]) == F(got[1])) if c['type'] == 'D' else (mv[1] == bool(got[1]))))
             if not ok:
                 chk.mismatch('period %r: Coq model %r vs implementation %r' % (p, mv, got), c)
     if m is not None: chk.traces += 1
-    chk.case(c, wrapped, key='list|' + json.dumps(jsonable([c['type'], lst, c.get('round')])))
+    chk.case(c, wrapped, key='list|' + json.dumps(jsonable([c['type'], lst, c.get('round'), c.get('container') or 'list'])))
 
 
 # ------------------------------------------------------------------------------------------------
@@ -567,6 +636,12 @@ def check_reported(chk, c, ds=None):
     lo = d.mean - 4 * d.sd - 1; hi = d.mean + 4 * d.sd + 1
     pts = [lo + (hi - lo) * k / 16 for k in range(17)] + ([float(x) for x in c['params']['demand_list']] if t == 'CD' else []) + \
           [float(math.floor(d.mean)), float(math.floor(d.mean)) + 0.5]
+    if t == 'CD':
+        # around every jump of the step function: the floats next to each support point and the midpoints between neighbours
+        sx = sorted(set(float(x) for x in c['params']['demand_list']))
+        pts += [float(np.nextafter(x, -np.inf)) for x in sx] + [float(np.nextafter(x, np.inf)) for x in sx] + [(a + b) / 2 for a, b in zip(sx, sx[1:])]
+    elif t in ('P', 'UD', 'NB'):
+        x0 = float(math.floor(d.mean)); pts += [float(np.nextafter(x0, -np.inf)), float(np.nextafter(x0, np.inf))]
     for x in pts:
         try:
             a = float(ds.cdf(x)); b = float(dist.cdf(x))
@@ -697,6 +772,13 @@ def oracle_reported_and_ltd(chk, nper, lmax, do_model=True):
                 chk.case(cl, cl['L'] >= 2, key='ltd|%s|%s|%s' % (t, json.dumps(jsonable(cl['params']), sort_keys=True), cl['L']))
                 if ltd is not None and do_model and t in ('UD', 'CD') and L <= 4:
                     model_jobs.append((cl, ltd))
+    # custom discrete demands in fractional units (support points that are not integers): reported mean / sd / cdf only.
+    # (lead_time_demand_distribution() of a 'CD' source is defined on integer supports only - see the claim's note - so no L here.)
+    for i in range(nper):
+        c = dict(kind='reported', type='CD', params=gen_params(rng, 'CD', rng.random() < 0.5, frac=True))
+        chk.count('reported type=CD fractional support')
+        check_reported(chk, c)
+        chk.case(c, True, key='reported|CD|%s' % json.dumps(jsonable(c['params']), sort_keys=True))
     # lead-time model (Alg/Gen.v conv_pow) against the implementation's pmf table
     exprs = []
     for cl, ltd in model_jobs:
@@ -917,7 +999,9 @@ def oracle_steady(chk, n, do_model=True):
             if i % 6 == 4: c['alpha'], c['beta'] = gen_markov_boundary(rng)          # a probability equal to 0 or 1 (int or float)
         else:
             c = dict(kind='steady', ptype='E', states=[rng.random() < rng.choice([0.1, 0.5, 0.9]) for _ in range(rng.randint(1, 12))])
+            c['container'] = gen_container(rng, c['states'])
         cases.append(c); chk.count('steady %s' % c['ptype'])
+        if c['ptype'] == 'E': chk.count('steady E container=%s' % c['container'])
         check_steady(chk, c)
         chk.case(c, (c['ptype'] == 'M' and 0 < c['alpha'] and 0 < c['beta']) or (c['ptype'] == 'E' and 0 < sum(c['states']) < len(c['states'])),
                  key='steady|' + json.dumps(jsonable(c)))
@@ -1046,7 +1130,8 @@ def stat_search(chk, nset, n, tests):
                                          'thresholds': 'DKW eps = sqrt(ln(2/delta)/(2n)); exact binomial quantiles at delta/2; z = %.2f (normal quantile at delta/2 x %.2f)' % (_z(), Z_SAFETY)})
     for t in ('UC', 'N', 'CD', 'UD', 'P', 'NB'):
         for i in range(nset):
-            c = dict(kind='stat', type=t, params=gen_params(rng, t, rng.random() < 0.3), round=None, seed=seed_of(rng), n=n)
+            c = dict(kind='stat', type=t, params=gen_params(rng, t, rng.random() < 0.3, frac=(t == 'CD' and i % 2 == 1)), round=None, seed=seed_of(rng), n=n)
+            if t == 'CD' and i == 3: c['round'] = True                       # fractional support rounded to integers (half to even)
             if t == 'UC' and i == 0: c['params'] = dict(lo=2, hi=10)           # hi - lo > lo: a wrong second argument stays inside the support
             if t == 'N' and i == 0: c['params'] = dict(mean=1.0, standard_deviation=2.0)       # heavy censoring at 0
             if t in ('N', 'UC') and i == 1: c['round'] = True
